@@ -2,22 +2,42 @@
 //!
 //! Real code through the public API: `Slot::{new, open, close}`, `LazySlot::{open, close}`, `SlotGuard::{deref_mut, drop}`,
 //! `OnParentDrop`, `AppendAndCloseOnDrop::{flush_guard, force_flush_guard}`, tokio `oneshot`.
-use crate::c06::Inner;
 use crate::rec::*;
 use metrique::slot::{LazySlot, OnParentDrop};
 use metrique::verif_keep_alive::P;
 use metrique::Slot;
 use metrique_core::CloseValue;
 
-/// the owning entry: the keep_alive kernel `AppendAndCloseOnDrop` is built on, holding an entry whose Drop closes
-/// it (slot included) and appends it - see c06.rs. The public wrapper itself does not finish in CBMC when a slot's
-/// oneshot channel is added to its drop glue (measured: > 25 min, > 12 GB per harness).
-type Owner = P<Inner>;
+/// The owning entry: the keep_alive kernel `AppendAndCloseOnDrop` is built on, holding an entry whose Drop closes
+/// it (slot included) and appends it. The slot itself is kept in a static next to the entry rather than inside its
+/// type: an entry type that contains `Slot<T>` makes the drop glue recursive through the guard's boxed closure
+/// (Slot -> SlotGuard -> FlushGuard -> Guard -> dyn FnOnce -> entry -> Slot ...), and CBMC unwinds that recursion
+/// without end (measured: no result in 20 min, 12 GB, with the public wrapper and with the kernel alike).
+static mut SLOT: Option<Slot<Child>> = None;
+pub struct Holder {
+    v: u64,
+}
+impl Drop for Holder {
+    fn drop(&mut self) {
+        let slot = unsafe { SLOT.take() }.and_then(|s| s.close());
+        unsafe {
+            CLOSES += 1;
+            APPENDS += 1;
+            LAST_V = self.v;
+            LAST_SLOT = slot;
+        }
+    }
+}
+type Owner = P<Holder>;
 fn owner_with_slot() -> Owner {
-    P::new(Inner { v: 5, slot: Some(Slot::new(Child(0))) })
+    unsafe { SLOT = Some(Slot::new(Child(0))) };
+    P::new(Holder { v: 5 })
+}
+fn slot() -> &'static mut Slot<Child> {
+    unsafe { SLOT.as_mut().unwrap() }
 }
 
-// @check C13 quick timeout=1800 mem=14
+// @check C13 quick timeout=2400 mem=24
 // @encodes metrique::slot::{Slot::new, Slot::open, Slot::close, SlotGuard::deref_mut, SlotGuard::drop, Waiting::take_value}, keep_alive::{Parent, Guard} (flush guard built as AppendAndCloseOnDrop::flush_guard builds it), tokio::sync::oneshot::{channel, Sender::send, Receiver::try_recv}
 // @bounds one slot opened in wait mode with the owner's flush guard; value written through the guard any u64; both orders as two harnesses (this one: first alternative); which of parent and slot guard is dropped first; second open attempted
 // @oracle second open is None; nothing appended while the slot guard lives, whichever is dropped first; when both are gone the entry was appended exactly once and contains the slot value as last written; the rest of the entry (v) is intact
@@ -26,10 +46,10 @@ fn owner_with_slot() -> Owner {
 #[kani::unwind(3)]
 pub fn wait_mode_never_loses_value_a() {
     reset();
-    let mut owner: Owner = owner_with_slot();
+    let owner: Owner = owner_with_slot();
     let fg = owner.flush_guard();
-    let mut guard = owner.get_mut().slot.as_mut().unwrap().open(OnParentDrop::Wait(fg)).expect("first open succeeds");
-    assert!(owner.get_mut().slot.as_mut().unwrap().open(OnParentDrop::Discard).is_none(), "a slot can be opened at most once");
+    let mut guard = slot().open(OnParentDrop::Wait(fg)).expect("first open succeeds");
+    assert!(slot().open(OnParentDrop::Discard).is_none(), "a slot can be opened at most once");
     let x: u64 = kani::any();
     guard.0 = x;
     let parent_first: bool = true;
@@ -57,7 +77,7 @@ pub fn wait_mode_never_loses_value_a() {
     }
 }
 
-// @check C13 quick timeout=1800 mem=14
+// @check C13 quick timeout=2400 mem=24
 // @encodes metrique::slot::{Slot::new, Slot::open, Slot::close, SlotGuard::deref_mut, SlotGuard::drop, Waiting::take_value}, keep_alive::{Parent, Guard} (flush guard built as AppendAndCloseOnDrop::flush_guard builds it), tokio::sync::oneshot::{channel, Sender::send, Receiver::try_recv}
 // @bounds one slot opened in wait mode with the owner's flush guard; value written through the guard any u64; both orders as two harnesses (this one: second alternative); which of parent and slot guard is dropped first; second open attempted
 // @oracle second open is None; nothing appended while the slot guard lives, whichever is dropped first; when both are gone the entry was appended exactly once and contains the slot value as last written; the rest of the entry (v) is intact
@@ -66,10 +86,10 @@ pub fn wait_mode_never_loses_value_a() {
 #[kani::unwind(3)]
 pub fn wait_mode_never_loses_value_b() {
     reset();
-    let mut owner: Owner = owner_with_slot();
+    let owner: Owner = owner_with_slot();
     let fg = owner.flush_guard();
-    let mut guard = owner.get_mut().slot.as_mut().unwrap().open(OnParentDrop::Wait(fg)).expect("first open succeeds");
-    assert!(owner.get_mut().slot.as_mut().unwrap().open(OnParentDrop::Discard).is_none(), "a slot can be opened at most once");
+    let mut guard = slot().open(OnParentDrop::Wait(fg)).expect("first open succeeds");
+    assert!(slot().open(OnParentDrop::Discard).is_none(), "a slot can be opened at most once");
     let x: u64 = kani::any();
     guard.0 = x;
     let parent_first: bool = false;
@@ -98,7 +118,7 @@ pub fn wait_mode_never_loses_value_b() {
 }
 
 
-// @check C13 quick timeout=1800 mem=14
+// @check C13 quick timeout=2400 mem=24
 // @encodes metrique::slot::{Slot::open, Slot::close, SlotGuard::drop}, OnParentDrop::Discard, tokio oneshot
 // @bounds one slot opened in discard mode; both drop orders as two harnesses of parent and guard; value any u64
 // @oracle entry appended exactly when the parent is dropped; slot value present iff the guard was dropped before; v intact either way; dropping the guard afterwards changes nothing and does not panic
@@ -106,8 +126,8 @@ pub fn wait_mode_never_loses_value_b() {
 #[kani::unwind(3)]
 pub fn discard_mode_present_iff_guard_first_a() {
     reset();
-    let mut owner: Owner = owner_with_slot();
-    let mut guard = owner.get_mut().slot.as_mut().unwrap().open(OnParentDrop::Discard).expect("first open succeeds");
+    let owner: Owner = owner_with_slot();
+    let mut guard = slot().open(OnParentDrop::Discard).expect("first open succeeds");
     let x: u64 = kani::any();
     guard.0 = x;
     let parent_first: bool = true;
@@ -135,7 +155,7 @@ pub fn discard_mode_present_iff_guard_first_a() {
     }
 }
 
-// @check C13 quick timeout=1800 mem=14
+// @check C13 quick timeout=2400 mem=24
 // @encodes metrique::slot::{Slot::open, Slot::close, SlotGuard::drop}, OnParentDrop::Discard, tokio oneshot
 // @bounds one slot opened in discard mode; both drop orders as two harnesses of parent and guard; value any u64
 // @oracle entry appended exactly when the parent is dropped; slot value present iff the guard was dropped before; v intact either way; dropping the guard afterwards changes nothing and does not panic
@@ -143,8 +163,8 @@ pub fn discard_mode_present_iff_guard_first_a() {
 #[kani::unwind(3)]
 pub fn discard_mode_present_iff_guard_first_b() {
     reset();
-    let mut owner: Owner = owner_with_slot();
-    let mut guard = owner.get_mut().slot.as_mut().unwrap().open(OnParentDrop::Discard).expect("first open succeeds");
+    let owner: Owner = owner_with_slot();
+    let mut guard = slot().open(OnParentDrop::Discard).expect("first open succeeds");
     let x: u64 = kani::any();
     guard.0 = x;
     let parent_first: bool = false;
@@ -173,7 +193,7 @@ pub fn discard_mode_present_iff_guard_first_b() {
 }
 
 
-// @check C13 quick timeout=1800 mem=14
+// @check C13 thorough timeout=3600 mem=40
 // @encodes metrique::slot::{Slot::open(Wait), SlotGuard::drop}, keep_alive::{Parent, DropAll} (force-flush guard built as AppendAndCloseOnDrop::force_flush_guard builds it)
 // @bounds wait-mode slot + a force-flush guard; parent dropped, then both orders (two harnesses) of {force guard, slot guard}
 // @oracle force guard first => entry appended at once without the slot value (the documented exception); slot guard first => appended with the value; exactly once either way
@@ -181,9 +201,9 @@ pub fn discard_mode_present_iff_guard_first_b() {
 #[kani::unwind(3)]
 pub fn force_flush_releases_waiting_entry_a() {
     reset();
-    let mut owner: Owner = owner_with_slot();
+    let owner: Owner = owner_with_slot();
     let fg = owner.flush_guard();
-    let mut guard = owner.get_mut().slot.as_mut().unwrap().open(OnParentDrop::Wait(fg)).unwrap();
+    let mut guard = slot().open(OnParentDrop::Wait(fg)).unwrap();
     let force = owner.force_flush_guard();
     let x: u64 = kani::any();
     guard.0 = x;
@@ -206,7 +226,7 @@ pub fn force_flush_releases_waiting_entry_a() {
     }
 }
 
-// @check C13 quick timeout=1800 mem=14
+// @check C13 thorough timeout=3600 mem=40
 // @encodes metrique::slot::{Slot::open(Wait), SlotGuard::drop}, keep_alive::{Parent, DropAll} (force-flush guard built as AppendAndCloseOnDrop::force_flush_guard builds it)
 // @bounds wait-mode slot + a force-flush guard; parent dropped, then both orders (two harnesses) of {force guard, slot guard}
 // @oracle force guard first => entry appended at once without the slot value (the documented exception); slot guard first => appended with the value; exactly once either way
@@ -214,9 +234,9 @@ pub fn force_flush_releases_waiting_entry_a() {
 #[kani::unwind(3)]
 pub fn force_flush_releases_waiting_entry_b() {
     reset();
-    let mut owner: Owner = owner_with_slot();
+    let owner: Owner = owner_with_slot();
     let fg = owner.flush_guard();
-    let mut guard = owner.get_mut().slot.as_mut().unwrap().open(OnParentDrop::Wait(fg)).unwrap();
+    let mut guard = slot().open(OnParentDrop::Wait(fg)).unwrap();
     let force = owner.force_flush_guard();
     let x: u64 = kani::any();
     guard.0 = x;
@@ -240,7 +260,7 @@ pub fn force_flush_releases_waiting_entry_b() {
 }
 
 
-// @check C13 quick timeout=1800 mem=14
+// @check C13 quick timeout=2400 mem=24
 // @encodes metrique::slot::{LazySlot::open, LazySlot::close, Slot::open, SlotGuard::drop}
 // @bounds LazySlot: never opened / opened once (wait-less) and guard dropped or kept; second open
 // @oracle never opened => None; second open is None; closed value == written value iff the guard was dropped before close
